@@ -45,6 +45,7 @@ sender-name resolution, governance pre-checks of `validateTx`; the fee rule ente
 -/
 import Aergo.Lemmas.PoolChain
 import Aergo.Lemmas.PoolLocks
+import Aergo.Lemmas.PoolSafe
 
 namespace Aergo.Props.C13
 open Aergo.Pool
@@ -145,6 +146,27 @@ example : LInv ⟨⟨0, 100⟩, [⟨7, 1, 21, 5, false⟩, ⟨7, 2, 22, 5, false
 /-- Test on sample values: filtering that list with state nonce 1 keeps 2 (ready) and 5 (orphan). -/
 example : ((⟨⟨0, 100⟩, [⟨7, 1, 21, 5, false⟩, ⟨7, 2, 22, 5, false⟩, ⟨7, 5, 23, 5, false⟩], 2⟩ : TxList).filter ⟨1, 100⟩).2.2
     = [⟨7, 1, 21, 5, false⟩] := by decide
+
+/-! ### No index or slice expression of the list code goes out of range
+
+The model totalises `list[i]` (`nonceAt` answers 0 out of range, where Go panics). `Lemmas/PoolSafe.lean` writes the
+list functions once more with *checked* indexing and slicing (`none` = run-time panic); the theorems below say that the
+checked versions always return a value — the unchecked model function's value — so the `LInv` theorems above are not
+true "for the wrong reason". -/
+
+/-- The binary search of `txList.search` and its `compare` never index out of range, on any list and key. -/
+theorem search_no_panic (l : List Tx) (key : Nat) : search? l key = some (search l key) := search?_safe l key
+
+/-- `Put` on a list satisfying `LInv`: the search, the two slice expressions of the insertion and every
+`continuous(index)` of the ready-extension loop (which reads `list[index]` and `list[ready-1]`) are in range. -/
+theorem put_no_panic (L : TxList) (tx : Tx) (h : LInv L) : L.put? tx = some (L.put tx) := put_safe h tx
+
+/-- `updateReady` (the tail of `FilterByState` and `RemoveTx`, run on whatever list is left) never indexes out of
+range, on any list. -/
+theorem updateReady_no_panic (b : Nat) (l : List Tx) : extendGo? b l 0 0 = some (updateReady b l) := updateReady_safe b l
+
+/-- `Get` / `pooled()` / `orphaned()` slice at `ready`, which is within the list under `LInv`. -/
+theorem get_no_panic (L : TxList) (h : LInv L) : L.get? = some L.get := get_safe h
 
 /-! ## The pool -/
 
